@@ -299,6 +299,24 @@ theorem policies_bincode_roundtrip (p : Policies) (h : Stable p) (hb : p.bits < 
   have h1 := real_type_roundtrip_bincode .TPolicies (ser p) rest (policies_ser_hasShape p h hb hv)
   simp [policiesFromWire, policiesToWire, h1, policies_serde_roundtrip_seq p h]
 
+/-- the validated decoder the driver runs (`pcDecode`/`bcDecode` with `policiesValid` at the `sel` node)
+accepts the encoding of every stable `Policies` and returns the tree `impl Serialize` produced -/
+theorem policies_decode_roundtrip (p : Policies) (h : Stable p) (hb : p.bits < 2 ^ 32)
+    (hv : ∀ v ∈ p.values, v < 2 ^ 64) (rest : Bytes) :
+    pcDecode policiesValid (shapeOf .TPolicies) (pcEnc (ser p) ++ rest) = some (ser p, rest) ∧
+    bcDecode policiesValid (shapeOf .TPolicies) (bcEnc (ser p) ++ rest) = some (ser p, rest) := by
+  have hs := policies_ser_hasShape p h hb hv
+  apply real_type_decode_roundtrip .TPolicies (ser p) rest ((hasShapeB_iff _ _).mpr hs)
+  have hshape : shapeOf .TPolicies =
+      .sel allMask legacyMaskSeq (.tuple (List.replicate 4 .u64)) (.seq .u64) := rfl
+  have hvalid : policiesValid (ser p) = true := by simp [policiesValid, policies_serde_roundtrip_seq p h]
+  rw [hshape]
+  rw [PoliciesJson.ser_eq] at hvalid ⊢
+  simp only [leavesOk, hvalid, Bool.true_and]
+  split
+  · exact (leavesOk_values _ _).1
+  · exact (leavesOk_values _ _).2
+
 /-- whatever bytes either binary format accepts as `Policies` decode to a stable value: decoding is a
 retraction onto the values that round-trip (with `policies_postcard_roundtrip`: decode ∘ encode ∘ decode = decode) -/
 theorem policies_wire_image_stable (dec : Shape → Bytes → Option (Tree × Bytes)) (bs r : Bytes) (p : Policies)
